@@ -119,7 +119,7 @@ func init() {
 	Register("RegistryFacts", func(e *Emitter) {
 		g := Parse("media/global.go")
 		tracked := oneOf("Lock", "Unlock", "RLock", "RUnlock", "Load", "Store", "Delete", "LoadOrStore", "LoadAndDelete",
-			"ConsumerCount", "Count", "close", "Close", "runZeroConsumersCloseTask")
+			"ConsumerCount", "Count", "close", "Close", "runZeroConsumersCloseTask", "CanonicalPath")
 		for _, fn := range []struct{ lean, name, doc string }{
 			{"registCalls", "Regist", "media.Regist: tracked calls in source order"},
 			{"unregistCalls", "Unregist", "media.Unregist: tracked calls in source order"},
